@@ -185,8 +185,21 @@ __attribute__((destructor)) static void fini(void) {
     }
 }
 
-/* take the next scripted event of a class, or NULL when the script is exhausted */
-static struct ev *next_ev(int c) { return pos[c] < nev[c] ? &evs[c][pos[c]++] : NULL; }
+/* Bounded liveness in logical steps: once the script of a class is exhausted the kernel is fault-free, so a
+ * correct program finishes after a number of calls proportional to its input. A program that keeps calling
+ * (e.g. retrying a read that reports end of stream) is stopped after STEP_LIMIT further calls of that class. */
+#define STEP_LIMIT 200000L
+static long calls_after_script[C_N];
+static void log_flush(void);
+static struct ev *next_ev(int c) {
+    if (pos[c] < nev[c]) return &evs[c][pos[c]++];
+    if (++calls_after_script[c] > STEP_LIMIT) {
+        logf_("@LIVELOCK %s calls_after_script=%ld\n", CLS[c], calls_after_script[c]);
+        log_flush();
+        syscall(SYS_exit_group, 97);
+    }
+    return NULL;
+}
 
 /* ---- getrandom ------------------------------------------------------------ */
 static uint64_t splitmix(void) {
